@@ -162,7 +162,10 @@ func (ds *Dataset) CompleteFullSync(ctx context.Context) error {
 	defer func() {
 		ds.fullSyncStarted = false
 		ds.fullSyncSeen = make(map[uint64]int) // release sync state
-		ds.fullSyncLease = nil                 // unset lease
+		if ds.fullSyncLease != nil && ds.fullSyncLease.cancel != nil {
+			ds.fullSyncLease.cancel() // stop the lease timer, it must not expire a later sync
+		}
+		ds.fullSyncLease = nil // unset lease
 		ds.fullSyncID = ""                     // unset id
 	}()
 
